@@ -8,9 +8,15 @@ create/dirty/drop/recycle histories; every block and every byte of every live ob
 the executable model inside Coq, and the property itself (initialised, isolated, same storage after
 rebuild, stores visible) is judged on the implementation trace by `monitor` below.  The lock/read/write
 event trace of `with v.get_lock(): v.value += 1` on the real Synchronized wrappers is compared with
-the instruction list the atomicity theorem is about.  Thorough tier: real processes."""
+the instruction list the atomicity theorem is about.  Hand-overs: histories of spawning processes /
+allocating / sending any handle from its holder to any process (pickle round trip exactly as for a spawn
+child, each emulated process with the ForkingPickler registry a fresh interpreter would have) / storing
+through any handle, compared with Model/SharedHop.v in Coq and judged by `hop_monitor` (a store through any
+handle is read through every handle descending from the same allocation); real chains parent -> child ->
+grandchild (spawn) work on the object at every level.  Thorough tier: real processes, longer chains."""
 import ctypes
 import json
+import mmap
 import random
 from vlib import core
 from vlib.core import cz, cnat, clist
@@ -25,7 +31,7 @@ MANIFEST = dict(
          'same without the outer lock can lose an update (witness). Correspondence of the real sharedctypes with the '
          'model byte by byte on create/dirty/drop/recycle histories over all type codes, structures with padding, '
          'array lengths and initialisers; recorded lock traces of the real Synchronized wrappers; the lock given is the lock used for every wrapper class, also after a pickle round trip in spawn mode (same semaphore, same storage); thorough: real '
-         'processes (visibility both ways, locked increments).',
+         'processes (visibility both ways, locked increments). Hand-overs (Model/SharedHop.v): per-process ForkingPickler registries; _new_value/rebuild_ctype regenerated as effect sequences (where the reducer is registered); theorems: for every history of spawning fresh processes, allocating, sending any handle from whatever process holds it, and storing, no handle is ever a by-value copy, every handle can be handed on again, handles descending from one allocation through any number of hops have the same store and a store through one is read through all; refuted for registration-at-allocation-only (witness: second hop copies / array raises). Correspondence: hand-over histories between emulated processes (registry reset to a fresh interpreter\'s) + real spawn chains parent->child->grandchild in the quick tier.',
     note='Trusted: Coq kernel, translate/kernels/sharedmem.py, harness; ctypes\' own encoding of values (the expected '
          'bytes are those of an ordinary private ctypes object); MAP_SHARED visibility and cache coherence (kernel/'
          'hardware); the recursive lock itself (C17) -- the atomicity theorem assumes acquire/release are atomic and '
@@ -39,6 +45,11 @@ HEADER = '''From Coq Require Import ZArith List Bool.
 From BV Require Import Lib.Cases Model.Heap Model.SharedMem.
 Import ListNotations. Open Scope Z_scope.
 Definition check_case := SharedMem.check_case.'''
+
+HEADER_HOPS = '''From Coq Require Import ZArith List Bool.
+From BV Require Import Lib.Cases Model.Heap Model.SharedMem Model.SharedHop.
+Import ListNotations. Open Scope Z_scope.
+Definition check_case := SharedHop.check_hcase.'''
 
 HEADER_TRACE = '''From Coq Require Import ZArith List Bool.
 From BV Require Import Lib.Cases Model.Heap Model.SharedMem.
@@ -310,6 +321,411 @@ def expected_bytes(op):
     return enc((ct * len(vals))(*vals))
 
 
+# ------------------------------------------------------------- hand-overs between processes
+def type_id(t):
+    """the ctypes type behind a type name, as a number (aliases such as c_longlong/c_long share one)"""
+    ct = ALLT[t]
+    return [i for i, n in enumerate(ALLT) if ALLT[n] is ct][0]
+
+
+def spec_size(kind, spec):
+    ct = ALLT[spec['t']]
+    if kind == 0:
+        return ctypes.sizeof(ct)
+    return ctypes.sizeof(ct) * (spec['n'] if kind == 1 else len(spec['init']))
+
+
+def rand_spec(rng, allow_sync=True):
+    t = rng.choice(list(ALLT))
+    kind = rng.choice([0, 0, 1, 2, 2])
+    sync = allow_sync and rng.random() < 0.35
+    if kind == 0:
+        if t in ('Point', 'Pad', 'Mixed'):
+            args = rand_value(rng, t)
+        else:
+            args = [] if rng.random() < 0.3 else [rand_value(rng, t)]
+        return kind, dict(t=t, args=args, sync=sync)
+    if kind == 1:
+        return kind, dict(t=t, n=rng.choice([1, 2, 3, 5]), sync=sync)
+    return kind, dict(t=t, init=[rand_value(rng, t) for _ in range(rng.choice([1, 2, 3, 6]))], sync=sync)
+
+
+def gen_hop_case(rng):
+    """spawn processes, allocate in any of them, send any handle from its holder to any process (most often the
+    newest handle to another process: chains of hand-overs), store through any handle"""
+    ops, nproc = [], 1
+    handles = []                      # dict(holder, size)
+    for _ in range(rng.choice([5, 8, 12, 18, 26])):
+        r = rng.random()
+        if (nproc < 6 and r < 0.15) or (nproc == 1 and r < 0.4):
+            ops.append(['spawn'])
+            nproc += 1
+        elif handles and nproc > 1 and r < 0.55:
+            k = len(handles) - 1 if rng.random() < 0.55 else rng.randrange(len(handles))
+            others = [q for q in range(nproc) if q != handles[k]['holder']]
+            q = rng.choice(others) if rng.random() < 0.9 else handles[k]['holder']
+            ops.append(['send', k, q])
+            handles.append(dict(holder=q, size=handles[k]['size']))
+        elif handles and r < 0.8:
+            cands = [k for k, h in enumerate(handles) if h['size']]
+            if not cands:
+                continue
+            k = cands[-1] if rng.random() < 0.4 else rng.choice(cands)
+            sz = handles[k]['size']
+            off = rng.randint(0, sz - 1)
+            ln = rng.randint(1, sz - off)
+            ops.append(['write', k, off, [rng.randint(0, 255) for _ in range(ln)]])
+        else:
+            p = rng.randrange(nproc)
+            kind, spec = rand_spec(rng)
+            ops.append(['new', p, kind, spec])
+            handles.append(dict(holder=p, size=spec_size(kind, spec)))
+    return dict(ops=ops)
+
+
+def hop_boundary_cases():
+    """for every type: parent allocates, child, grandchild and great-grandchild receive it in turn (none of them ever
+    allocates that type), each stores through its handle; plus the same with a receiver that did allocate the type"""
+    out = []
+    for t in list(ALLT):
+        v = {'c': 200, 'u': 0x20AC, 'f': 1.5, 'd': -2.25, 'Point': [1.0, 2.0], 'Pad': [77, 5], 'Mixed': [1, 2, 3], 'c_bool': True}.get(t, 1)
+        args = v if isinstance(v, list) else [v]
+        sz = ctypes.sizeof(ALLT[t])
+        for kind, spec, size in ((0, dict(t=t, args=args, sync=t not in ('Point', 'Pad', 'Mixed')), sz),
+                                 (2, dict(t=t, init=[args[0] if t not in ('Point', 'Pad', 'Mixed') else args[:1]] * 2, sync=False), 2 * sz)):
+            out.append(dict(ops=[['new', 0, kind, spec], ['spawn'], ['spawn'], ['spawn'],
+                                 ['send', 0, 1], ['write', 1, 0, [0x11] * size],
+                                 ['send', 1, 2], ['write', 2, 0, [0x22] * size],
+                                 ['send', 2, 3], ['write', 3, size - 1, [0x33]],
+                                 ['send', 3, 0], ['write', 0, 0, [0x44]]]))
+    out.append(dict(ops=[['spawn'], ['spawn'], ['new', 0, 0, dict(t='i', args=[7], sync=True)], ['new', 1, 0, dict(t='i', args=[8])],
+                         ['send', 0, 1], ['send', 2, 2], ['send', 3, 0], ['send', 1, 2], ['write', 3, 0, [1, 2, 3, 4]],
+                         ['write', 5, 0, [9]], ['send', 5, 0]]))
+    return out
+
+
+def hop_model_op(o):
+    if o[0] == 'spawn':
+        return 'HSpawn'
+    if o[0] == 'new':
+        p, kind, spec = o[1], o[2], o[3]
+        t = spec['t']
+        ct = ALLT[t]
+        tid = type_id(t)
+        if kind == 0:
+            args = [conv(t, a) for a in spec['args']]
+            cty, size, init = '(%d, None)' % tid, ctypes.sizeof(ct), (enc(ct(*args)) if args else [])
+        elif kind == 1:
+            cty, size, init = '(%d, Some %d)' % (tid, spec['n']), ctypes.sizeof(ct) * spec['n'], []
+        else:
+            vals = [conv(t, a) for a in spec['init']]
+            cty, size, init = '(%d, Some %d)' % (tid, len(vals)), ctypes.sizeof(ct) * len(vals), enc((ct * len(vals))(*vals))
+        return '(HNew %s %d %s %s %s)' % (cnat(p), kind, cty, cz(size), clist(init))
+    if o[0] == 'send':
+        return '(HSend %s %s)' % (cnat(o[1]), cnat(o[2]))
+    return '(HWrite %s %s %s)' % (cnat(o[1]), cz(o[2]), clist(o[3]))
+
+
+def hop_to_coq(c, out):
+    obs = []
+    for op, rec in zip(c['ops'], out['obs']):
+        if 'exc' in rec:
+            obs.append('((-2, (-2, -2, -2), -2), [])')
+            continue
+        cr = rec['created']
+        if cr is None:
+            head = '(-3, (-1, -1, -1), 0)'
+        elif not rec['backed']:
+            head = '(-1, (-1, -1, -1), %s)' % cz(cr[2])
+        else:
+            head = '(%s, %s, %s)' % (cz(cr[0]), cblock(cr[1]), cz(cr[2]))
+        obs.append('(%s, %s)' % (head, clist(rec['reads'], clist)))
+    pg = mmap.PAGESIZE
+    return '((%s, %s, %s, %s) : SharedHop.hcase)' % (cz(pg), cz(pg), clist(c['ops'], hop_model_op), '[' + '; '.join(obs) + ']')
+
+
+def hop_monitor(c, out):
+    """the property on the implementation trace alone: every new object holds its initial value in its own block; a
+    handle obtained by sending is the same storage; a store through any handle is read through every handle that
+    descends from the same allocation (any number of hand-overs) and through no other; no hand-over fails"""
+    for check_backing in (False, True):
+        m = _hop_monitor(c, out, check_backing)
+        if m:
+            return m
+    return None
+
+
+def _hop_monitor(c, out, check_backing):
+    handles = []          # dict(holder, root, hops, created, bytes, what)
+    nproc = 1
+
+    def name(k):
+        h = handles[k]
+        return 'handle %d (%s, in process %d, %s)' % (
+            k, h['what'], h['holder'], 'allocated there' if not h['hops'] else 'received through %d hand-over%s' % (h['hops'], '' if h['hops'] == 1 else 's'))
+
+    for j, (op, rec) in enumerate(zip(c['ops'], out['obs'])):
+        if 'exc' in rec:
+            if op[0] == 'send':
+                return ('C15:cannot-be-handed-on', 'op %d: %s cannot be sent on to process %d: %s' % (j, name(op[1]), op[2], rec['exc']))
+            return ('C15:raised', 'op %d %s raised %s' % (j, json.dumps(op)[:120], rec['exc']))
+        reads = rec['reads']
+        touched = set()
+        if op[0] == 'spawn':
+            nproc += 1
+        elif op[0] == 'new':
+            k = len(handles)
+            p, kind, spec = op[1], op[2], op[3]
+            want = expected_bytes(['new', kind, spec])
+            if rec['expect'] != want:
+                return ('C15:driver-expectation', 'driver and checker disagree on the private encoding at op %d' % j)
+            cr = rec['created']
+            if len(reads) != k + 1 or reads[k] != want:
+                return ('C15:not-initialised', 'op %d %s: object reads %s, an ordinary ctypes object holds %s'
+                        % (j, json.dumps(op), reads[k] if len(reads) > k else None, want))
+            blk = cr[1]
+            if cr[0] != p or cr[2] != len(want) or cr[2] > blk[2] - blk[1] or blk[1] % 8:
+                return ('C15:misplaced', 'op %d: process %d allocated size %d in block %s of process %d' % (j, p, cr[2], blk, cr[0]))
+            for k2, h2 in enumerate(handles):
+                c2 = h2['created']
+                if c2[0] == cr[0] and c2[1][0] == blk[0] and c2[1][1] < blk[2] and blk[1] < c2[1][2]:
+                    return ('C15:overlapping-storage', 'op %d: new object in %s overlaps %s in %s' % (j, blk, name(k2), c2[1]))
+            if check_backing and not rec['backed']:
+                return ('C15:object-not-in-shared-storage', 'op %d: the new object is not the memory of its block' % j)
+            handles.append(dict(holder=p, root=k, hops=0, created=cr, what=describe(kind, spec)))
+            touched = {k}
+        elif op[0] == 'send':
+            k = len(handles)
+            src, q = op[1], op[2]
+            h = handles[src]
+            if len(reads) != k + 1 or reads[k] != h['bytes'] or rec['created'] != h['created'] or rec['raw_cls'][0] != rec['raw_cls'][1] \
+                    or rec['cls'][0] != rec['cls'][1]:
+                return ('C15:rebuild-other-storage', 'op %d: %s sent to process %d arrives as %s over storage %s reading %s; the sender\'s is %s over %s reading %s'
+                        % (j, name(src), q, rec['cls'][1], rec['created'], reads[k] if len(reads) > k else None, rec['cls'][0], h['created'], h['bytes']))
+            if rec.get('lock_shared') is False:
+                return ('C15:rebuilt-lock-not-shared', 'op %d: %s sent to process %d: the received wrapper\'s lock does not exclude the sender\'s' % (j, name(src), q))
+            handles.append(dict(holder=q, root=h['root'], hops=h['hops'] + 1, created=rec['created'], what=h['what']))
+            if check_backing and not rec['backed']:
+                return ('C15:object-not-in-shared-storage',
+                        'op %d: %s sent to process %d: the received object is a private copy, not the memory of block %s '
+                        '(stores through it are seen by no other process)' % (j, name(src), q, rec['created']))
+            touched = {k}
+        elif op[0] == 'write':
+            k, off, data = op[1], op[2], op[3]
+            new = list(handles[k]['bytes'])
+            new[off:off + len(data)] = data
+            touched = {a for a, h in enumerate(handles) if h['root'] == handles[k]['root']}
+            for a in sorted(touched, key=lambda a: (a != k, a)):
+                if reads[a] != new:
+                    return ('C15:write-not-visible', 'op %d: bytes %s stored at offset %d through %s are not read through %s: it reads %s, expected %s'
+                            % (j, data, off, name(k), name(a), reads[a], new))
+        if len(reads) != len(handles):
+            return ('C15:driver-live-set', 'op %d: %d handles, %d read' % (j, len(handles), len(reads)))
+        for k2, h2 in enumerate(handles):
+            if k2 not in touched and reads[k2] != h2['bytes']:
+                return ('C15:not-isolated', 'op %d %s changed the bytes of %s: %s -> %s'
+                        % (j, json.dumps(op)[:200], name(k2), h2['bytes'], reads[k2]))
+        for k2, h2 in enumerate(handles):
+            h2['bytes'] = reads[k2]
+    return None
+
+
+def describe(kind, spec):
+    f = ('Value' if spec.get('sync') else 'RawValue') if kind == 0 else ('Array' if spec.get('sync') else 'RawArray')
+    arg = spec.get('args') if kind == 0 else (spec.get('n') if kind == 1 else spec.get('init'))
+    return '%s(%s, %s)' % (f, spec['t'], json.dumps(arg))
+
+
+def hop_drop_op(ops, i):
+    """ops without op i; processes and handles are renumbered, ops referring to something removed go too"""
+    out, pmap, hmap = [], {0: 0}, {}
+    np_old = 1
+    nh_old = 0
+    for j, o in enumerate(ops):
+        if o[0] == 'spawn':
+            P = np_old
+            np_old += 1
+            if j != i:
+                pmap[P] = len(pmap)
+                out.append(o)
+        elif o[0] == 'new':
+            H = nh_old
+            nh_old += 1
+            if j != i and o[1] in pmap:
+                hmap[H] = len(hmap)
+                out.append(['new', pmap[o[1]], o[2], o[3]])
+        elif o[0] == 'send':
+            H = nh_old
+            nh_old += 1
+            if j != i and o[1] in hmap and o[2] in pmap:
+                hmap[H] = len(hmap)
+                out.append(['send', hmap[o[1]], pmap[o[2]]])
+        elif j != i and o[1] in hmap:
+            out.append(['write', hmap[o[1]], o[2], o[3]])
+    return out
+
+
+def shrink_hops(case, sig, budget=60):
+    def fails(c):
+        try:
+            o = core.run_driver('sharedmem_driver.py', dict(mode='hops', cases=[c]))[0]
+            m = hop_monitor(c, o)
+        except Exception:
+            return False
+        return bool(m) and m[0] == sig
+    best = case
+    changed = True
+    while changed and budget > 0:
+        changed = False
+        i = len(best['ops']) - 1
+        while i >= 0 and budget > 0:
+            c = dict(best, ops=hop_drop_op(best['ops'], i))
+            if len(c['ops']) < len(best['ops']):
+                budget -= 1
+                if fails(c):
+                    best = c
+                    changed = True
+                    i = min(i, len(best['ops']))
+            i -= 1
+    return best
+
+
+def hops(res, n):
+    rng = random.Random(res.seed * 104729 + 1515)
+    cases = hop_boundary_cases() + [gen_hop_case(rng) for _ in range(n)]
+    outs = core.run_driver('sharedmem_driver.py', dict(mode='hops', cases=cases))
+    terms = [hop_to_coq(c, o) for c, o in zip(cases, outs)]
+    codes, _ = core.coq_eval('C15h', HEADER_HOPS, core.chunks(terms, 100))
+    bad = dict(codes)
+    first = True
+    for i, (c, o) in enumerate(zip(cases, outs)):
+        m = hop_monitor(c, o)
+        if m:
+            if first:
+                first = False
+                cut = dict(c, ops=c['ops'][:len(o['obs'])])
+                small = shrink_hops(cut, m[0])
+                o2 = core.run_driver('sharedmem_driver.py', dict(mode='hops', cases=[small]))[0]
+                m2 = hop_monitor(small, o2)
+                if m2 and m2[0] == m[0]:
+                    c, o, m = small, o2, m2
+            res.alarms.append(dict(signature=m[0], what=m[1][:900], replay=dict(hop_case=c, impl=o['obs'])))
+        elif i in bad:
+            res.broken.append(dict(kind='correspondence', name='SharedHop model vs billiard.sharedctypes hand-overs',
+                                   detail=json.dumps(dict(hop_case=c, impl=o['obs']))[:4000]))
+    kinds, depth, second_hops, types_ = {}, {}, 0, {}
+    for c in cases:
+        hs = []
+        for op in c['ops']:
+            kinds[op[0]] = kinds.get(op[0], 0) + 1
+            if op[0] == 'new':
+                hs.append(0)
+                types_[op[3]['t']] = types_.get(op[3]['t'], 0) + 1
+            elif op[0] == 'send':
+                hs.append(hs[op[1]] + 1)
+                depth[hs[-1]] = depth.get(hs[-1], 0) + 1
+                second_hops += hs[-1] >= 2
+    nontrivial = {json.dumps(c, sort_keys=True) for c in cases
+                  if any(o[0] == 'send' for o in c['ops']) and any(o[0] == 'write' for o in c['ops'])}
+    res.add_cov(evaluations=len(cases), distinct=len(nontrivial), traces=len(cases), hand_over_histories=len(cases),
+                hand_over_op_histogram=kinds, hand_over_type_histogram=types_,
+                hand_overs_by_depth={str(k): v for k, v in sorted(depth.items())}, hand_overs_from_a_receiver=second_hops,
+                rule='hand-over histories: spawn / allocate in any process / send any handle from its holder to any process (pickle round '
+                     'trip as for a spawn child; every emulated process has its own ForkingPickler registry, sharedctypes caches and heap) / '
+                     'store through any handle; per-type chains of three hand-overs; non-trivial = at least one hand-over and one store')
+
+
+# ------------------------------------------------------------- real chains parent -> child -> grandchild
+def chain_cases(tier, widen=False):
+    cs = [dict(method='spawn', depth=2, n=25, obj=dict(kind='Value', t='i', value=5, sync=True)),
+          dict(method='spawn', depth=3, n=3, obj=dict(kind='Array', t='d', init=[0.5, 1.5, 2.5], sync=True)),
+          dict(method='spawn', depth=2, n=4, obj=dict(kind='Value', t='h', value=12, sync=False))]
+    if tier != 'quick' or widen:
+        cs += [dict(method='spawn', depth=3, n=200, obj=dict(kind='Value', t='l', value=-7, sync=True)),
+               dict(method='spawn', depth=2, n=5, obj=dict(kind='Array', t='i', init=[1, 2, 3, 4], sync=False)),
+               dict(method='spawn', depth=4, n=2, obj=dict(kind='Value', t='d', value=0.25, sync=True)),
+               dict(method='spawn', depth=2, n=3, obj=dict(kind='Array', t='B', init=[1, 2], sync=True)),
+               dict(method='spawn', depth=2, n=5, obj=dict(kind='Value', t='c_ulonglong', value=2 ** 40, sync=True))]
+    if tier != 'quick':
+        cs += [dict(c, method='forkserver') for c in cs[:4]] + [dict(c, method='fork') for c in cs[:2]]
+    return cs
+
+
+def chain_expect(c):
+    """the value after level 1, 2, ... worked on it (sharedmem_targets.act), computed here"""
+    spec = c['obj']
+    cur = spec['value'] if spec['kind'] == 'Value' else list(spec['init'])
+    states = [cur]
+    for level in range(1, c['depth'] + 1):
+        if spec['kind'] == 'Value':
+            cur = cur + c['n'] * level
+        else:
+            cur = [x + c['n'] * level * (j + 1) for j, x in enumerate(cur)]
+        states.append(cur)
+    return states
+
+
+def chain_monitor(c, r):
+    """None or (signature, text): every level saw what the level before left, and what the last level left is what every
+    level and the creating process read at the end"""
+    tag = '%s(%s) handed on %s through %d processes (%s)' % (
+        ('' if c['obj'].get('sync') else 'Raw') + c['obj']['kind'], c['obj']['t'], 'parent -> child -> grandchild' if c['depth'] == 2 else 'down a chain',
+        c['depth'], c['method'])
+    if 'error' in r:
+        return ('C15:chain-scenario-failed', '%s: %s' % (tag, r['error']))
+    st = chain_expect(c)
+    if r.get('initial') != st[0]:
+        return ('C15:not-initialised', '%s: created holding %s, expected %s' % (tag, r.get('initial'), st[0]))
+    rep = r.get('report')
+    level = 1
+    reps = []
+    while rep is not None:
+        reps.append(rep)
+        if 'error' in rep:
+            return ('C15:raised', '%s: level %d raised %s' % (tag, level, rep['error']))
+        if rep.get('saw') != st[level - 1]:
+            return ('C15:write-not-visible', '%s: the process at level %d saw %s on entry, the level above had left %s'
+                    % (tag, level, rep.get('saw'), st[level - 1]))
+        if rep.get('wrote') != st[level]:
+            return ('C15:lost-update', '%s: level %d read back %s after its %d updates, expected %s' % (tag, level, rep.get('wrote'), c['n'], st[level]))
+        if 'start_error' in rep:
+            return ('C15:cannot-be-handed-on', '%s: the process at level %d, which only received the object, cannot hand it on: %s'
+                    % (tag, level, rep['start_error']))
+        if level < c['depth'] and rep.get('sub') is None:
+            return ('C15:chain-scenario-failed', '%s: no report from level %d (exit code %s)' % (tag, level + 1, rep.get('exitcode')))
+        rep = rep.get('sub')
+        level += 1
+    if len(reps) != c['depth']:
+        return ('C15:chain-scenario-failed', '%s: %d of %d levels reported (exit code %s)' % (tag, len(reps), c['depth'], r.get('exitcode')))
+    for lv in range(len(reps), 0, -1):
+        if reps[lv - 1].get('after') != st[-1]:
+            return ('C15:write-not-visible', '%s: the updates made at level %d (it read back %s) are not visible at level %d, which reads %s at the end'
+                    % (tag, c['depth'], reps[-1].get('after'), lv, reps[lv - 1].get('after')))
+    if r.get('final') != st[-1]:
+        return ('C15:write-not-visible', '%s: the creating process reads %s at the end; the %d levels below left %s (level %d read back %s)'
+                % (tag, r.get('final'), c['depth'], st[-1], c['depth'], reps[-1].get('after')))
+    return None
+
+
+def chains(res, widen=False):
+    cases = chain_cases(res.tier, widen)
+    outs = core.run_driver('sharedmem_driver.py', dict(mode='chain', cases=cases), timeout=900)
+    carried = {}
+    for c, r in zip(cases, outs):
+        m = chain_monitor(c, r)
+        if m and m[0] == 'C15:chain-scenario-failed' and c['method'] != 'spawn':
+            res.notes.append('start method %s could not carry the chain in this sandbox: %s' % (c['method'], m[1]))
+            continue
+        if m:
+            res.alarms.append(dict(signature=m[0], what=m[1][:900], replay=dict(chain_case=c, impl=r)))
+        else:
+            carried[c['method']] = carried.get(c['method'], 0) + 1
+    res.add_cov(evaluations=len(cases), distinct=len(cases), traces=len(cases), real_chain_scenarios=len(cases),
+                real_chains_by_method=carried, real_chain_depths=sorted({c['depth'] for c in cases}),
+                rule='real processes: the object is handed parent -> child -> grandchild (-> ...), every level updates it (under its lock '
+                     'where it has one) and starts the next; each level must see what the level above left and, at the end, what the last left')
+
+
 # ------------------------------------------------------------- shrinking a failing history
 def drop_op(ops, i):
     """ops without op i; object numbers are renumbered, ops referring to a removed object go too"""
@@ -512,13 +928,21 @@ def procs(res):
 
 
 def run(res):
-    res.proof_step('Props/C15.v', extra_targets=['Model/SharedMem.vo'], kernels_needed=['G_sharedmem'])
+    res.proof_step('Props/C15.v', extra_targets=['Model/SharedMem.vo', 'Model/SharedHop.vo'], kernels_needed=['G_sharedmem'])
     n = 110 if res.tier == 'quick' else 3000
     if res.broken:
         n = max(n, 1500)
+    if res.broken:
+        # the models must be there for the failing-input search even when the proof cone is not
+        core.coq_make(['Model/SharedMem.vo', 'Model/SharedHop.vo'])
     correspond(res, n)
     traces(res)
     locks(res)
+    nh = 60 if res.tier == 'quick' else 1500
+    if res.broken:
+        nh = max(nh, 400)
+    hops(res, nh)
+    chains(res, widen=bool(res.broken))
     if res.tier != 'quick':
         rng = random.Random(res.seed * 13 + 1515)
         cases = [gen_case(rng, real=True) for _ in range(200)]
@@ -533,6 +957,8 @@ def run(res):
         'MAP_SHARED memory written in one process is visible in another (validated by real processes in the thorough tier, not proved)',
         'the BufferWrapper finaliser runs when the last reference is dropped (CPython reference counting)',
         'frees are valid (each wrapper frees its own block once): inherited from C14',
+        'a process started in the style of spawn/forkserver has the ForkingPickler registry of a fresh interpreter (emulated by the driver: the '
+        'registry as it is after importing billiard, snapshot taken at driver start); validated by real spawn chains',
         'all updaters use the same lock object/semaphore: checked on the real wrappers (lock identity, pickle round trip), the atomicity theorem has one lock',
     ]
 
@@ -548,6 +974,25 @@ def replay(path):
         bad = [judge_lock_record(r) for r in now]
         print('monitor:', [b for b in bad if b] or 'property holds on this check')
         return 1 if any(bad) else 0
+    if 'replay' in d and 'hop_case' in d['replay']:
+        c = d['replay']['hop_case']
+        out = core.run_driver('sharedmem_driver.py', dict(mode='hops', cases=[c]))[0]
+        print('hand-over history:', json.dumps(c))
+        print('implementation now:', json.dumps(out['obs'])[:3000])
+        m = hop_monitor(c, out)
+        print('monitor:', m or 'property holds on this trace')
+        codes, _ = core.coq_eval('C15r', HEADER_HOPS, [[hop_to_coq(c, out)]])
+        print('model agrees' if not codes else 'model disagrees')
+        return 1 if (m or codes) else 0
+    if 'replay' in d and 'chain_case' in d['replay']:
+        c = d['replay']['chain_case']
+        out = core.run_driver('sharedmem_driver.py', dict(mode='chain', cases=[c]))[0]
+        print('chain:', json.dumps(c))
+        print('expected states after each level:', json.dumps(chain_expect(c)))
+        print('implementation now:', json.dumps(out)[:3000])
+        m = chain_monitor(c, out)
+        print('monitor:', m or 'property holds on this scenario')
+        return 1 if m else 0
     if 'replay' not in d or 'case' not in d['replay']:
         print(json.dumps(d.get('broken', d.get('replay', d)))[:3000])
         return 1
